@@ -59,6 +59,28 @@ func ScanAll(text []byte) (toks [][]any, errs []int, panicked any) {
 		}
 		toks = append(toks, []any{proj.SpecKind(k), int64(sc.GetStartPos()), int64(sc.GetTokenPos()), int64(sc.GetTextPos()), val, sc.HasPrecedingLineBreak()})
 		errs = append(errs, nerr)
+		// speculation is a stuttering step of the scanner: looking ahead (and a failed TryScan) leaves every observable
+		// of the current token as it was - the parser relies on it after "." and "!." at a line break
+		if k != formula.SK_EndOfFile {
+			type obs struct {
+				tok           formula.SyntaxKind
+				start, tp, ep int
+				val           string
+				nl            bool
+			}
+			read := func() obs {
+				return obs{sc.GetToken(), sc.GetStartPos(), sc.GetTokenPos(), sc.GetTextPos(), sc.GetTokenValue(), sc.HasPrecedingLineBreak()}
+			}
+			before, saved := read(), nerr
+			formula.LookHead(sc, func() bool { sc.Scan(); sc.Scan(); return true })
+			mid := read()
+			formula.TryScan(sc, func() interface{} { sc.Scan(); return nil }) // a nil result rolls back
+			nerr = saved
+			if after := read(); mid != before || after != before {
+				panicked = fmt.Sprintf("speculation did not restore the scanner at token %d: %+v, then %+v / %+v", i, before, mid, after)
+				return
+			}
+		}
 		if k == formula.SK_EndOfFile {
 			return
 		}
